@@ -163,6 +163,10 @@ impl<'a> FreeVariableCollector<'a> {
     }
 
     fn visit_chain(&mut self, chain: &ast::Chain) {
+        // The pattern of a binding step (`[a, &y] = ...`) can pin outer variables too.
+        if let Some(pattern) = &chain.match_pattern {
+            self.visit_match(pattern);
+        }
         for term in &chain.terms {
             self.visit_term(term);
         }
